@@ -69,7 +69,8 @@ Theorem C04_splice_wrong_type :
            uevents u' =
            (if c_dg c then rev (map EDrop (tb :: rest)) else []) ++
            repeat ENext (S (length good)) ++
-           (if c_dg c then rev (map EDrop (firstn (j - i) (skipn i xs))) else []) ++ uevents u.
+           (if c_dg c then rev (map EDrop (firstn (j - i) (skipn i xs))) else []) ++ uevents u /\
+           (N.of_nat new_len <= vcap v -> vcap v' = vcap v).
 Proof. exact splice_drop_wrong_type. Qed.
 
 (** Non-vacuity: a wrong-typed owned value offered to a non-empty vector. *)
@@ -86,7 +87,7 @@ Proof. vm_compute. reflexivity. Qed.
 From AV.Model Require Import Interp.
 From AV.Spec Require Import WorldSpec.
 From AV.Proofs Require Import WorldProofs.
-(** WHOLE HISTORIES: the run-time type checks are steps of the history fragment of AV.Props.C01 and hold at any point of any history: a value of another type offered to the erased push / insert is refused with PType BEFORE anything else is looked at (also before the index), destroyed once, and nothing else changes ([WorldSpec.sp_offer_wrong], [C04_wrong_offer_in_histories]); a removal handle whose downcast to another type is refused behaves as a dropped handle ([C04_refused_downcast_in_histories]); the type probes (downcasts of the vector, of element references and of element handles succeed for the element type and for no other; reported type id and layout) and the refused swap with a value of another type ([WorldSpec.sp_look], cases OProbeTypes / OSwapWrong: [C04_type_checks_in_histories]). *)
+(** WHOLE HISTORIES: the run-time type checks are steps of the history fragment of AV.Props.C01 and hold at any point of any history: a value of another type offered to the erased push / insert is refused with PType BEFORE anything else is looked at (also before the index), destroyed once, and nothing else changes ([WorldSpec.sp_offer_wrong], [C04_wrong_offer_in_histories]); a removal handle whose downcast to another type is refused behaves as a dropped handle ([C04_refused_downcast_in_histories]); the type probes (downcasts of the vector, of element references and of element handles succeed for the element type and for no other; reported type id and layout) and the refused swap with a value of another type ([WorldSpec.sp_look], cases OProbeTypes / OSwapWrong: [C04_type_checks_in_histories]).  Splices with a wrong-typed replacement value are steps of the fragment too: [WorldSpec.sp_splice_wrong], [C04_wrong_splice_in_histories] (on top of the one-step theorem [C04_splice_wrong_type]). *)
 Theorem C04_type_checks_in_histories :
   forall (c : cfg) (w : world) (st : astate) (o : op) (r : sres),
          cfg_wf c ->
@@ -127,6 +128,18 @@ Theorem C04_refused_downcast_in_histories :
             else r0).
 Proof. exact exec_down_wrong. Qed.
 
+(** splice whose j-th replacement value (of n, honestly announced) has another runtime type, as a step of any history, for every range and cursor position: refused with PType by the per-item check; the vector keeps exactly the elements in front of the range - shorter but valid and fully usable by every later step -, the refused value and those behind it are destroyed once each, the values already written are leaked with the tail (never visible, never destroyed twice) *)
+Theorem C04_wrong_splice_in_histories :
+  forall (c : cfg) (w : world) (st : astate) (a : api) (vid : nat) (sb eb : bound)
+           (pat : list (bool * sink)) (f : fin) (rk : rkind) (n j claimed : N) (r : sres),
+         cfg_wf c ->
+         WRep c w st ->
+         ufuse (wuw w) = None ->
+         sp_splice_wrong c st (unext (wuw w)) vid sb eb pat f rk n j claimed = Some r ->
+         adm_splice c w vid sb eb claimed ->
+         res_matches c w (exec c (OSplice a vid sb eb pat f rk n (Some j) claimed) w) r.
+Proof. exact exec_splice_wrong. Qed.
+
 (* ---- end histories ---- *)
 Print Assumptions C04_wrong_type_owned_value_rejected.
 Print Assumptions C04_wrong_type_borrowed_value_rejected.
@@ -135,3 +148,4 @@ Print Assumptions C04_splice_wrong_type.
 Print Assumptions C04_type_checks_in_histories.
 Print Assumptions C04_wrong_offer_in_histories.
 Print Assumptions C04_refused_downcast_in_histories.
+Print Assumptions C04_wrong_splice_in_histories.
